@@ -888,7 +888,8 @@ def run_bc_simul(res, ast):
                     arm = a
         if arm is None:
             raise Missing("emit_block: arm ir::Instr::Calc")
-        gets = [m for m in walk_t(arm["body"], "MethodCall") if m["method"] == "get_expr_value"]
+        # evaluation of a right-hand side: get_expr_value(..), or its body `expr.codegen(self, ..)` when the helper is written out
+        gets = [m for m in walk_t(arm["body"], "MethodCall") if m["method"] in ("get_expr_value", "codegen")]
         wrs = [m for m in walk_t(arm["body"], "MethodCall") if m["method"] == "mem_write"]
         loops = [l for l in walk_t(arm["body"], "ForLoop")]
         both = [l for l in loops if any(x in list(walk(l)) for x in gets) and any(x in list(walk(l)) for x in wrs)]
